@@ -791,7 +791,20 @@ fn read_for(cur: &mut SourceCursor, song: &mut Song) -> Token {
     cur.next(); // skip '('
     let init_s = cur.get_token_ch(';').trim().to_string();
     let cond_s = cur.get_token_ch(';');
-    let inc_s = cur.get_token_ch(')');
+    // the increment ends at the ')' that closes the header: parentheses inside it (a call, a grouping) are part of it
+    let mut inc_s = String::new();
+    let mut level = 0;
+    while !cur.is_eos() {
+        let ch = cur.get_char();
+        if ch == '\n' { cur.line += 1; }
+        if ch == '(' {
+            level += 1;
+        } else if ch == ')' {
+            if level == 0 { break; }
+            level -= 1;
+        }
+        inc_s.push(ch);
+    }
     cur.skip_space_ret(); // the '{' may stand on a later line
     if !cur.eq_char('{') {
         read_error_cmd(cur, song, "FOR");
